@@ -54,26 +54,35 @@ Proof.
 Qed.
 
 (* C01 at kernel level: any number of validation points, any orders that are permutations of the units *)
-Theorem kernel_is_shapley_mean n us nulls orders p :
-  (p < n)%nat -> orders <> [] -> (forall l, In l orders -> Permutation l (seq 0 n)) ->
-  nth p (kernel n us nulls orders) 0 == shapley n (vnn_mean us nulls orders) p.
+Theorem kernel_t_is_shapley n (ts : list kpoint) p :
+  (p < n)%nat -> ts <> [] -> (forall t, In t ts -> Permutation (snd t) (seq 0 n)) ->
+  nth p (kernel_t n ts) 0 == shapley n (vnn_mean_t ts) p.
 Proof.
   intros Hp Hne Hperm. rewrite <- shapley_bf_marginal by exact Hp.
-  unfold kernel.
-  rewrite (nth_indep _ 0 ((fun p => sumQ (fun t => col_value (fst (fst t)) (snd (fst t)) (snd t) p)
-                                  (combine (combine us nulls) orders) / qn (length orders)) 0%nat))
+  unfold kernel_t.
+  rewrite (nth_indep _ 0 ((fun p => sumQ (fun t : kpoint => col_value (fst (fst t)) (snd (fst t)) (snd t) p) ts
+                                   / qn (length ts)) 0%nat))
     by (rewrite map_length, seq_length; exact Hp).
-  rewrite (map_nth (fun p => sumQ (fun t => col_value (fst (fst t)) (snd (fst t)) (snd t) p)
-                              (combine (combine us nulls) orders) / qn (length orders))).
+  rewrite (map_nth (fun p => sumQ (fun t : kpoint => col_value (fst (fst t)) (snd (fst t)) (snd t) p) ts / qn (length ts))).
   rewrite seq_nth by exact Hp. cbn [Nat.add].
-  assert (Hc : ~ qn (length orders) == 0).
-  { assert (0 < qn (length orders)) by (apply qn_pos; destruct orders; [contradiction|cbn; lia]). lra. }
-  unfold vnn_mean. rewrite shapley_bf_div by exact Hc. rewrite shapley_bf_sum.
+  assert (Hc : ~ qn (length ts) == 0).
+  { assert (0 < qn (length ts)) by (apply qn_pos; destruct ts; [contradiction|cbn; lia]). lra. }
+  unfold vnn_mean_t. rewrite shapley_bf_div by exact Hc. rewrite shapley_bf_sum.
   apply Qmult_comp; [|reflexivity]. apply sumQ_ext. intros [[u null] l] Hin. cbn [fst snd].
-  assert (Hl : In l orders) by (apply in_combine_r in Hin; exact Hin).
-  destruct (perm_units_facts n l (Hperm l Hl)) as [Hnd [Hlt Hin_all]].
+  destruct (perm_units_facts n l (Hperm _ Hin)) as [Hnd [Hlt Hin_all]].
   destruct (In_nth_error l p (Hin_all p Hp)) as [i Hi].
   rewrite (col_value_nth u null l i p Hnd Hi). apply (kernel_is_shapley u null n l i p Hnd Hlt Hi).
+Qed.
+
+Lemma points_orders us nulls orders t : In t (points us nulls orders) -> In (snd t) orders.
+Proof. intros H. destruct t as [a l]. apply in_combine_r in H. exact H. Qed.
+
+Theorem kernel_is_shapley_mean n us nulls orders p :
+  (p < n)%nat -> points us nulls orders <> [] -> (forall l, In l orders -> Permutation l (seq 0 n)) ->
+  nth p (kernel n us nulls orders) 0 == shapley n (vnn_mean us nulls orders) p.
+Proof.
+  intros Hp Hne Hperm. apply kernel_t_is_shapley; [exact Hp|exact Hne|].
+  intros t Ht. apply Hperm. apply (points_orders us nulls orders). exact Ht.
 Qed.
 
 (* ---------- C06: efficiency through C01 ---------- *)
@@ -95,29 +104,41 @@ Proof.
   rewrite IH. reflexivity.
 Qed.
 
-Theorem kernel_efficiency n us nulls orders :
-  (0 < n)%nat -> orders <> [] -> (forall l, In l orders -> Permutation l (seq 0 n)) ->
-  sumQ (fun x => x) (kernel n us nulls orders)
-  == sumQ (fun t => hd_u (fst (fst t)) (snd (fst t)) (snd t) - snd (fst t)) (combine (combine us nulls) orders)
-     / qn (length orders).
+Lemma Qdiv_sub_distr (a b c : Q) : ~ c == 0 -> a / c - b / c == (a - b) / c.
+Proof. intros H. field. exact H. Qed.
+
+Theorem kernel_t_efficiency n (ts : list kpoint) :
+  (0 < n)%nat -> ts <> [] -> (forall t, In t ts -> Permutation (snd t) (seq 0 n)) ->
+  sumQ (fun x => x) (kernel_t n ts)
+  == sumQ (fun t : kpoint => hd_u (fst (fst t)) (snd (fst t)) (snd t) - snd (fst t)) ts / qn (length ts).
 Proof.
   intros Hn Hne Hperm.
-  assert (Hlen : length (kernel n us nulls orders) = n) by (unfold kernel; rewrite map_length, seq_length; reflexivity).
+  assert (Hlen : length (kernel_t n ts) = n) by (unfold kernel_t; rewrite map_length, seq_length; reflexivity).
   rewrite <- sumQ_seq_nth, Hlen.
-  rewrite (sumQ_ext _ (fun p => shapley_bf n (vnn_mean us nulls orders) p)).
-  2:{ intros p Hp. apply in_seq in Hp. rewrite kernel_is_shapley_mean by (auto; lia).
+  rewrite (sumQ_ext _ (fun p => shapley_bf n (vnn_mean_t ts) p)).
+  2:{ intros p Hp. apply in_seq in Hp. rewrite kernel_t_is_shapley by (auto; lia).
       symmetry. apply shapley_bf_marginal. lia. }
-  rewrite shapley_efficiency by exact Hn. unfold vnn_mean.
-  assert (Hc : ~ qn (length orders) == 0).
-  { assert (0 < qn (length orders)) by (apply qn_pos; destruct orders; [contradiction|cbn; lia]). lra. }
-  assert (E : sumQ (fun t => hd_u (fst (fst t)) (snd (fst t)) (snd t) - snd (fst t)) (combine (combine us nulls) orders)
-             == sumQ (fun t => vnn (fst (fst t)) (snd (fst t)) (snd t) (alltrue n)) (combine (combine us nulls) orders)
-                - sumQ (fun t => vnn (fst (fst t)) (snd (fst t)) (snd t) (allfalse n)) (combine (combine us nulls) orders)).
-  { rewrite (sumQ_ext (fun t => hd_u (fst (fst t)) (snd (fst t)) (snd t) - snd (fst t))
-                      (fun t => vnn (fst (fst t)) (snd (fst t)) (snd t) (alltrue n)
+  rewrite shapley_efficiency by exact Hn. unfold vnn_mean_t.
+  assert (Hc : ~ qn (length ts) == 0).
+  { assert (0 < qn (length ts)) by (apply qn_pos; destruct ts; [contradiction|cbn; lia]). lra. }
+  assert (E : sumQ (fun t : kpoint => hd_u (fst (fst t)) (snd (fst t)) (snd t) - snd (fst t)) ts
+             == sumQ (fun t : kpoint => vnn (fst (fst t)) (snd (fst t)) (snd t) (alltrue n)) ts
+                - sumQ (fun t : kpoint => vnn (fst (fst t)) (snd (fst t)) (snd t) (allfalse n)) ts).
+  { rewrite (sumQ_ext (fun t : kpoint => hd_u (fst (fst t)) (snd (fst t)) (snd t) - snd (fst t))
+                      (fun t : kpoint => vnn (fst (fst t)) (snd (fst t)) (snd t) (alltrue n)
                                 + (-1) * vnn (fst (fst t)) (snd (fst t)) (snd t) (allfalse n))).
     - rewrite sumQ_plus, sumQ_scale. ring.
     - intros [[u null] l] Hin. cbn [fst snd]. rewrite vnn_allfalse.
-      rewrite (vnn_alltrue u null l n); [ring|]. apply in_combine_r in Hin. apply (perm_units_facts n l (Hperm l Hin)). }
-  rewrite E. field. exact Hc.
+      rewrite (vnn_alltrue u null l n); [ring|]. apply (perm_units_facts n l (Hperm _ Hin)). }
+  rewrite E. apply Qdiv_sub_distr. exact Hc.
+Qed.
+
+Theorem kernel_efficiency n us nulls orders :
+  (0 < n)%nat -> points us nulls orders <> [] -> (forall l, In l orders -> Permutation l (seq 0 n)) ->
+  sumQ (fun x => x) (kernel n us nulls orders)
+  == sumQ (fun t : kpoint => hd_u (fst (fst t)) (snd (fst t)) (snd t) - snd (fst t)) (points us nulls orders)
+     / qn (length (points us nulls orders)).
+Proof.
+  intros Hn Hne Hperm. apply kernel_t_efficiency; [exact Hn|exact Hne|].
+  intros t Ht. apply Hperm. apply (points_orders us nulls orders). exact Ht.
 Qed.
